@@ -68,7 +68,7 @@ MUX_BOUNDS = {
 }
 
 MUX_OUTSIDE = ["byte-level MP4 / MPEG-TS encoding (mediacommon)", "histories longer than K writes (covered by the step harnesses where registered)",
-               "H265 / VP9 / AV1 outside the single-video fMP4 runs registered for C01/C02 (fixed valid parameter-set vectors, two alternatives each)", "pts != dts"]
+               "H265 / VP9 / AV1 outside the single-video fMP4 runs registered for C01/C02 (fixed valid parameter-set vectors, two alternatives each)", "pts != dts beyond the one real reordered H264 sequence of the *.bframes runs"]
 
 for pid, tech in [("C01", "ghost list of accepted units vs decoded fragments"), ("C02", "specification cut rule vs observed rotations; init contents"),
                   ("C03", "durations / targets / date-times of every served playlist vs ghost segments"),
@@ -464,6 +464,12 @@ CHECKS["C20"]["runs"] = CHECKS["C20"]["runs"] + [
     {"name": "conc.pipeline.fmp4", "files": CLIP, "fn": "VerifH_C20_pipeline", "workers": 8, "params_quick": {"FRAGS": 3}, "params_thorough": {"FRAGS": 5},
      "reach": ["consumer-blocked", "end"], "replay_timeout": 120}]
 CHECKS["C20"]["bounds"]["quick"]["pipeline"] = "3 fMP4 segments x 3 fragments, the consumer blocks in the last unit of the first segment"
+# reordered frames (PTS != DTS): mediacommon's real B-frame vector, arbitrary SegmentMinDuration
+def _bf(name, variant):
+    return {"name": name, "files": [G + "c02_bframes.go"] + MUX, "fn": "VerifH_C02_bframes", "workers": 8,
+            "params": {"VARIANT": variant, "TRACKS": 0, "BFRAMES": 1}, "reach": ["end", "cut"], "budget_quick": 600, "budget_thorough": 3600}
+for pid in ("C01", "C02"):
+    CHECKS[pid]["runs"] = CHECKS[pid]["runs"] + [_bf("run.mux.ts.bframes", 1), _bf("run.mux.fmp4.bframes", 2)]
 # three parts in one file (a middle part: offset > 0 and data after it), few operations
 CHECKS["C17"]["runs"] = CHECKS["C17"]["runs"] + [
     {"name": "run.storage.equiv.3parts", "dir": "pkg/storage", "files": [S + "c17_storage.go", "rt/fs_model.go"], "fn": "VerifH_C17_storage", "workers": 16,
